@@ -102,9 +102,10 @@ class YieldInjector:
     """sys.monitoring LINE events in the named repository files: with probability p the running thread yields
     (time.sleep(0)), which multiplies the thread interleavings seen inside value()/the metadata cleaner."""
 
-    def __init__(self, repo, rel_files, seed=0, p=0.3):
+    def __init__(self, repo, rel_files, seed=0, p=0.3, calls=False):
         import random
 
+        self.calls = calls  # also yield right before calls made from those files (between argument evaluation and the call)
         self.files = {os.path.realpath(os.path.join(repo, f)) for f in rel_files}
         self.rnd = random.Random(seed)
         self.p = p
@@ -123,7 +124,10 @@ class YieldInjector:
                 break
             except ValueError:
                 continue
-        if self.tool is None:
+        if self.tool is None or self.p <= 0:
+            if self.tool is not None:
+                mon.free_tool_id(self.tool)
+                self.tool = None
             return self
 
         def on_line(code, line):
@@ -134,8 +138,18 @@ class YieldInjector:
                 self.injected += 1
                 time.sleep(0)
 
+        def on_call(code, offset, fn, arg0):
+            if code.co_filename not in self.files:
+                return mon.DISABLE
+            self.lines += 1
+            if self.rnd.random() < self.p:
+                self.injected += 1
+                time.sleep(0)
+
         mon.register_callback(self.tool, mon.events.LINE, on_line)
-        mon.set_events(self.tool, mon.events.LINE)
+        if self.calls:
+            mon.register_callback(self.tool, mon.events.CALL, on_call)
+        mon.set_events(self.tool, mon.events.LINE | (mon.events.CALL if self.calls else 0))
         return self
 
     def __exit__(self, *a):
@@ -143,6 +157,8 @@ class YieldInjector:
             mon = sys.monitoring
             mon.set_events(self.tool, 0)
             mon.register_callback(self.tool, mon.events.LINE, None)
+            if self.calls:
+                mon.register_callback(self.tool, mon.events.CALL, None)
             mon.free_tool_id(self.tool)
             self.tool = None
         return False
